@@ -131,7 +131,7 @@ class Exec(ExprMixin, CallMixin, BuiltinMixin, StmtMixin, ExecBase):
         return env
 
     def _with_regions(self, c, label, goal, st, env):
-        regs = self.regions.get((self.cur_fn, label), [])
+        regs = self.regions.get((self.cur_fn, label.split("@")[0]), [])
         for rx in regs:
             r = truth(self.eval_spec(rx, st, env, None, c.module))
             goal = z3.Or(r, goal)
